@@ -1061,3 +1061,128 @@ pub fn history_decoded_eval(case: &HistoryCase) -> (Vec<Violation>, Value) {
     let ev = eval_history(case);
     (ev.violations, json!({"ret": ev.last_ret}))
 }
+
+// ---------------------------------------------------------------------------------------------
+// C20: long overlaps
+// ---------------------------------------------------------------------------------------------
+
+/// Run A is started on a small graph and driven until its first function is in
+/// flight; then K other runs are started and finished on the same graph
+/// (K = 255, 256, 65 535, 65 536: run tags, tickets or pooled slots narrower than
+/// `usize` wrap here); then A is driven to its end and compared with the same run
+/// alone on a fresh graph.
+pub struct OverlapHistories {
+    pub instances: u64,
+    pub runs: u64,
+    pub violation: Option<(Violation, Value)>,
+    pub samples: Vec<Value>,
+    pub hashes: Vec<u64>,
+}
+
+fn overlap_base(shape: Shape, rev: bool, n: usize) -> RunCfg {
+    use crate::gen::{Api, Strat};
+    RunCfg {
+        api: Api { shape, with: true },
+        rev,
+        limit: None,
+        strat: Strat::NonInterruptible,
+        include: true,
+        failing: vec![],
+        yields: vec![0; n],
+        abort_after: None,
+        instant: vec![],
+        coop: false,
+        drop_sender: false,
+        pre_interrupted: 0,
+        on_clone: false,
+        unwind: vec![],
+        rev_again: 0,
+        opts_order: 0,
+    }
+}
+
+/// One long overlap (see `overlap_histories`): violations, number of runs, A's result.
+pub fn eval_overlap(spec: &GraphSpec, a_cfg: &RunCfg, k: u64) -> (Vec<Violation>, u64, Ret) {
+    let n = spec.n();
+    let mut o1 = overlap_base(Shape::ForEach, false, n);
+    o1.instant = (0..n).collect();
+    let mut o2 = overlap_base(Shape::Fold, true, n);
+    o2.instant = (0..n).collect();
+    let o3 = overlap_base(Shape::Stream, false, n);
+    let g = build_graph(spec);
+    let facts = GraphFacts::new(spec, &g);
+    let mut a = make_stepper(&g, a_cfg);
+    // A: poll until its first function is in flight
+    a.apply(Act::Poll);
+    let mut runs = 1u64;
+    for i in 0..k {
+        let c = match i % 3 {
+            0 => &o1,
+            1 => &o2,
+            _ => &o3,
+        };
+        let mut s = make_stepper(&g, c);
+        crate::cases::finish_default(s.as_mut(), false);
+        runs += 1;
+    }
+    crate::cases::finish_default(a.as_mut(), false);
+    let ret = final_ret(a.as_ref());
+    let trace = a.trace();
+    let acts = a.acts().to_vec();
+    let (mut viol, _) = check_run(&facts, a_cfg, &trace, &acts, &ret, &a.engine_violations());
+    // alone, same actions
+    let g2 = build_graph(spec);
+    let mut solo = make_stepper(&g2, a_cfg);
+    let ok = drive(solo.as_mut(), Schedule::Strict(&acts), false);
+    let sret = final_ret(solo.as_ref());
+    if !ok || solo.trace() != trace || sret != ret {
+        viol.push(v(
+            "C20",
+            "interference",
+            format!(
+                "run A ({}) with {k} other runs started and finished on the same graph while it was in progress: trace={trace:?} ret={ret:?}; alone with the same actions: trace={:?} ret={sret:?}",
+                a_cfg.api.name(),
+                solo.trace()
+            ),
+        ));
+    }
+    drop(a);
+    (viol, runs, ret)
+}
+
+pub fn overlap_histories(seed: u64) -> OverlapHistories {
+    use crate::model::{Kind, TestFn};
+    use std::sync::Mutex;
+    let res: Mutex<OverlapHistories> = Mutex::new(OverlapHistories { instances: 0, runs: 0, violation: None, samples: vec![], hashes: vec![] });
+    let fns: Vec<TestFn> = (0..5).map(|id| TestFn { id, reads: vec![], writes: if id == 4 { vec![0] } else { vec![] } }).collect();
+    // 0 -> 1 -> 2, 0 -> 3, 4 alone
+    let spec = GraphSpec { fns, edges: vec![(0, 1, Kind::Logic), (1, 2, Kind::Contains), (0, 3, Kind::Logic)], batches: vec![] };
+    let shapes = [Shape::Stream, Shape::ForEach, Shape::Fold];
+    std::thread::scope(|sc| {
+        for (ki, k) in [255u64, 256, 65_535, 65_536].into_iter().enumerate() {
+            for (si, shape) in shapes.into_iter().enumerate() {
+                let res = &res;
+                let spec = &spec;
+                let a_cfg = overlap_base(shape, (seed as usize + ki + si) % 2 == 1, 5);
+                // the other runs: complete at once, alternating API and order
+                sc.spawn(move || {
+                    let (viol, runs, ret) = eval_overlap(spec, &a_cfg, k);
+                    let mut r = res.lock().unwrap();
+                    r.instances += 1;
+                    r.runs += runs + 1;
+                    r.hashes.push(hash_of(&(k, si)));
+                    if r.samples.len() < 2 {
+                        r.samples.push(json!({"run_a": a_cfg.api.name(), "other_runs_during_a": k, "ret": ret.label()}));
+                    }
+                    if r.violation.is_none() {
+                        if let Some(x) = viol.into_iter().find(|x| x.prop == "C20") {
+                            let dec = json!({"kind": "overlap-history", "spec": spec, "a_cfg": a_cfg, "other_runs": k});
+                            r.violation = Some((x, dec));
+                        }
+                    }
+                });
+            }
+        }
+    });
+    res.into_inner().unwrap()
+}
